@@ -1,6 +1,7 @@
 package gen
 
 import (
+	"regexp"
 	"strconv"
 )
 
@@ -242,8 +243,170 @@ func allWildEntries(s *Step) bool {
 	return true
 }
 
-// memberFor overlays witnesses for the filter's operands on a member.
+// memberFor overlays witnesses for the filter's operands on a member: half of the time
+// values chosen to make the filter hold (or fail) for this member, otherwise values merely
+// related to the operands.
 func (b *docBuilder) memberFor(q *Query, member *DNode) *DNode {
+	switch r := b.g.intn("membermode", 10); {
+	case r < 5:
+		return b.satisfy(q, member, true)
+	case r < 7:
+		return b.satisfy(q, member, false)
+	}
+	return b.memberRelated(q, member)
+}
+
+func mirrorOp(op string) string {
+	switch op {
+	case "<":
+		return ">"
+	case "<=":
+		return ">="
+	case ">":
+		return "<"
+	case ">=":
+		return "<="
+	}
+	return op
+}
+
+func negateOp(op string) string {
+	switch op {
+	case "==":
+		return "!="
+	case "!=":
+		return "=="
+	case "<":
+		return ">="
+	case "<=":
+		return ">"
+	case ">":
+		return "<="
+	case ">=":
+		return "<"
+	}
+	return op
+}
+
+func (b *docBuilder) overlay(p *Path, member *DNode, leaf func() *DNode) *DNode {
+	w := b.witness(p.Steps, leaf)
+	if p.Root == RootAt {
+		return Merge(member, w)
+	}
+	b.atRoot = Merge(b.atRoot, w)
+	return member
+}
+
+// litLeaf returns a value v for which "v op lit" holds.
+func (g *G) litLeaf(op string, lit *Operand) *DNode {
+	eq := func() *DNode {
+		switch lit.LK {
+		case LNum:
+			f, _ := strconv.ParseFloat(lit.Num, 64)
+			return Num(f)
+		case LStr:
+			return Str(lit.Str)
+		case LBool:
+			return Bool(lit.Bool)
+		}
+		return Null()
+	}
+	switch op {
+	case "==":
+		return eq()
+	case "!=":
+		if g.chance("neother", 50) {
+			return g.Leaf()
+		}
+		if lit.LK == LNum {
+			f, _ := strconv.ParseFloat(lit.Num, 64)
+			return Num(f + 1)
+		}
+		return Str(lit.Str + "z")
+	}
+	f, _ := strconv.ParseFloat(lit.Num, 64)
+	switch op {
+	case "<":
+		return Num(f - 1)
+	case "<=":
+		if g.chance("leeq", 50) {
+			return Num(f)
+		}
+		return Num(f - 0.5)
+	case ">":
+		return Num(f + 1)
+	}
+	if g.chance("geeq", 50) {
+		return Num(f)
+	}
+	return Num(f + 0.5)
+}
+
+// satisfy overlays values that make q evaluate to want for this member (best effort).
+func (b *docBuilder) satisfy(q *Query, member *DNode, want bool) *DNode {
+	g := b.g
+	switch q.Kind {
+	case QParen:
+		return b.satisfy(q.L, member, want)
+	case QOr, QAnd:
+		both := (q.Kind == QAnd) == want
+		if both {
+			return b.satisfy(q.R, b.satisfy(q.L, member, want), want)
+		}
+		if g.chance("side", 50) {
+			return b.satisfy(q.L, member, want)
+		}
+		return b.satisfy(q.R, member, want)
+	case QExists:
+		if want != q.Not {
+			return b.overlay(q.P, member, func() *DNode { return g.tail() })
+		}
+		return member
+	case QRegex:
+		re, err := regexp.Compile(q.Re)
+		if err != nil {
+			return member
+		}
+		for try := 0; try < 6; try++ {
+			sv := strPool[g.intn("resat", len(strPool))]
+			if re.MatchString(sv) == want {
+				return b.overlay(q.P, member, func() *DNode { return Str(sv) })
+			}
+		}
+		return member
+	case QCmp:
+		op := q.Op
+		if !want {
+			op = negateOp(op)
+		}
+		switch {
+		case q.A.IsLit && q.B.IsLit:
+			return member
+		case q.B.IsLit:
+			return b.overlay(q.A.P, member, func() *DNode { return g.litLeaf(op, q.B) })
+		case q.A.IsLit:
+			return b.overlay(q.B.P, member, func() *DNode { return g.litLeaf(mirrorOp(op), q.A) })
+		}
+		// path op path
+		x, y := 1.0, 1.0
+		switch op {
+		case "!=", "<":
+			y = 2
+		case ">":
+			x = 2
+		}
+		if op == "==" && g.chance("eqshared", 50) {
+			k := g.intn("sharedk", len(sharedPool))
+			member = b.overlay(q.A.P, member, sharedPool[k])
+			return b.overlay(q.B.P, member, sharedPool[k])
+		}
+		member = b.overlay(q.A.P, member, func() *DNode { return Num(x) })
+		return b.overlay(q.B.P, member, func() *DNode { return Num(y) })
+	}
+	return member
+}
+
+func (b *docBuilder) memberRelated(q *Query, member *DNode) *DNode {
 	b.visitAtoms(q, func(p *Path, related *Operand, re string) {
 		if p == nil {
 			return
@@ -419,7 +582,7 @@ func (g *G) perturb(d *DNode) *DNode {
 
 // Doc draws a document for p: 60 % path-directed, 40 % free.
 func (g *G) Doc(p *Path) *DNode {
-	if g.chance("directed", 60) {
+	if g.chance("directed", 72) {
 		return g.DocFor(p)
 	}
 	g.DocKind = "free"
